@@ -27,6 +27,11 @@ def run(ctx):
                       "default) is read by a validator reachable from that type's _validate (e.g. step decides the order check of Range; allow_None decides whether None passes)", floor=20)
     ctx.rule("R11.f", "constructors leave unspecified slots unspecified: no Parameter type's __init__ replaces a slot argument that was not given (Undefined) by a concrete value before it is "
                       "stored -- a slot holding a concrete value counts as declared on that class and is never filled from an ancestor (allow_None is the documented exception: recomputed, R11.d)", floor=25)
+    ctx.rule("R11.g", "allow_None is decided by the class's own declaration only: the slot is stored by constructors (and the _set_allow_None helper they call) and by nobody else -- in particular "
+                      "not by a post-inheritance hook (_update_state), which runs before the merged default is re-validated and would make an inherited None default acceptable", floor=3)
+    ctx.rule("R11.h", "the type-change test is meaningful: no Parameter type whose own _validate_value tests the value with isinstance(val, <builtin type>) is a subclass of another such type "
+                      "testing an unrelated builtin (str / bytes, ...): `issubclass(type(ancestor), type(new))` would call the re-declaration compatible and skip the re-validation of the "
+                      "inherited default", floor=5)
     ctx.not_decided += ["hierarchies deeper than three levels and multiple-inheritance merges (the model is bounded; the search loop is the same code)",
                         "that the value allow_None is recomputed TO is the right one for each type (only that it is never left Undefined, R11.d)",
                         "that the validators themselves are right (C01)"]
@@ -145,6 +150,59 @@ def run(ctx):
                                              g.qualname, arg, norm(st)[:70], arg), key="%s::materialises-unspecified::%s" % (g.qualname, arg),
                          input="class A: p = %s(%s=<value>); class B(A): p = %s()  ->  B.param.p.%s is the type's own default, not A's" % (cq.rsplit(".", 1)[-1], arg, cq.rsplit(".", 1)[-1], arg))
     ctx.require(n_f >= 25, "fewer than 25 Parameter constructors examined for R11.f (%d)" % n_f)
+
+    # R11.g
+    n_g = 0
+    for g in ctx.repo.funcs.values():
+        if g.cls is None or not ctx.facts.is_parameter_cls(g.cls.qualname) or not g.params:
+            continue
+        for st in ast.walk(g.node):
+            tg = st.targets if isinstance(st, ast.Assign) else ([st.target] if isinstance(st, (ast.AugAssign, ast.AnnAssign)) else [])
+            for t in tg:
+                if isinstance(t, ast.Attribute) and t.attr == "allow_None" and isinstance(t.value, ast.Name) and t.value.id == g.params[0]:
+                    n_g += 1
+                    if g.name in ("__init__", "_set_allow_None"):
+                        ctx.ok("R11.g", g, st, "allow_None stored by a constructor")
+                    else:
+                        ctx.fail("R11.g", g, st, "%s stores allow_None outside a constructor (`%s`): the value no longer follows from the class's own declaration -- after the inherited slots were "
+                                                 "merged, a None default taken from an ancestor is made acceptable instead of being rejected by the re-validation" % (g.qualname, norm(st)[:60]),
+                                 key="%s::allow-none-written-after-merge" % g.qualname)
+    ctx.require(n_g >= 3, "fewer than 3 stores of allow_None found (%d)" % n_g)
+
+    # R11.h
+    BUILTINS = {"str", "bytes", "bool", "int", "float", "list", "tuple", "dict", "set"}
+    RELATED = {("bool", "int"), ("int", "bool")}
+    own_test = {}
+    for cq in ctx.repo.classes:
+        if not ctx.facts.is_parameter_cls(cq):
+            continue
+        cobj = ctx.repo.classes[cq]
+        for g in cobj.methods.get("_validate_value", []):
+            val = g.params[1] if len(g.params) > 1 else None
+            tested = set()
+            for c in ast.walk(g.node):
+                if isinstance(c, ast.Call) and isinstance(c.func, ast.Name) and c.func.id == "isinstance" and len(c.args) == 2 and isinstance(c.args[0], ast.Name) and c.args[0].id == val:
+                    spec = c.args[1].elts if isinstance(c.args[1], ast.Tuple) else [c.args[1]]
+                    tested |= {x.id for x in spec if isinstance(x, ast.Name) and x.id in BUILTINS}
+            if tested:
+                own_test[cq] = tested
+    n_h = 0
+    for cq, tested in sorted(own_test.items()):
+        n_h += 1
+        clash = None
+        for anc in ctx.hier.mro(cq)[1:]:
+            if anc in own_test and not (own_test[anc] & tested) and not any((a, b) in RELATED for a in tested for b in own_test[anc]):
+                clash = anc
+                break
+        vf = ctx.repo.classes[cq].methods["_validate_value"][0]
+        if clash:
+            ctx.fail("R11.h", vf, vf.node, "%s accepts %s values but is a subclass of %s, which accepts %s: re-declaring an inherited %s parameter as %s passes the type-change test "
+                                           "(issubclass), so an inherited default of the wrong type is not re-validated and the class is created with it" % (
+                                               cq.rsplit(".", 1)[-1], "/".join(sorted(tested)), clash.rsplit(".", 1)[-1], "/".join(sorted(own_test[clash])), cq.rsplit(".", 1)[-1], clash.rsplit(".", 1)[-1]),
+                     key="%s::subclass-of-incompatible-type" % cq)
+        else:
+            ctx.ok("R11.h", vf, vf.node, "%s (%s): no ancestor tests an unrelated builtin type" % (cq.rsplit(".", 1)[-1], "/".join(sorted(tested))))
+    ctx.require(n_h >= 5, "fewer than 5 Parameter types with an isinstance test on a builtin found (%d)" % n_h)
 
     # R11.c
     from checks.shared import inherited_default_revalidated
